@@ -50,6 +50,10 @@ struct c04_session : public vsim_session {
       for (size_t k = 0; k < abf->samples->data.size(); k++) o << " " << abf->samples->data[k];
       o << " sum";
       for (size_t k = 0; k < abf->gradients->data.size(); k++) o << " " << vs_hex(abf->gradients->data[k]);
+      // the stored free-energy gradient as written to the state / .grad files (value_output = data / count)
+      o << " go";
+      for (std::vector<int> ix = abf->gradients->new_index(); abf->gradients->index_ok(ix); abf->gradients->incr(ix))
+        for (size_t k = 0; k < abf->colvars.size(); k++) o << " " << vs_hex(abf->gradients->value_output(ix, k));
       o << " per";
       for (size_t i = 0; i < abf->gradients->periodic.size(); i++) o << " " << (abf->gradients->periodic[i] ? 1 : 0);
       o << " nx";
